@@ -809,6 +809,11 @@ def runUnalias (T : Table) (args : List (List Char)) : CmdResult :=
     else if operands.isEmpty then { T := [] }
     else { T := T, status := 2 }
 
+/-- `is_portable_alias_name` (yash-env alias.rs; what `define` tests when the `portable` option is on): a non-empty
+    string of ASCII letters, digits and `! % , - @ _` -/
+def isPortableAliasName (s : List Char) : Bool :=
+  !s.isEmpty && s.all fun c => c.isAlphanum || c == '!' || c == '%' || c == ',' || c == '-' || c == '@' || c == '_'
+
 /-- one `alias …` / `unalias …` command (words as written: quote removal first) -/
 def runCmd (T : Table) (ws : List (List Char)) : CmdResult :=
   match ws.map (unquote .un) with
